@@ -258,6 +258,10 @@ pub fn run_index_case(rep: &mut Report, seed: u64, case: u64, verbose: bool) {
         canon.extend_from_slice(&coords[0].semantic_digest);
         rep.nontrivial(&canon);
     }
+    if rep.wants_sample() && case == 0 {
+        rep.sample(json!({"workload": "retain-index", "case": case, "coordinates": coords.len(), "content_lengths": contents.iter().map(Vec::len).collect::<Vec<_>>(),
+            "ops_total": trace.len(), "first_ops": trace.iter().take(12).collect::<Vec<_>>(), "coordinates_retained_at_end": model.len()}));
+    }
     rep.count("histories_retain_index", 1);
     rep.count("coordinates_retained", model.len() as u64);
     let _ = store.len();
@@ -404,6 +408,10 @@ pub fn run_cache_case(rep: &mut Report, seed: u64, case: u64, verbose: bool) {
         }
         canon.push(s);
         rep.nontrivial(&canon);
+    }
+    if rep.wants_sample() && case == 3 {
+        rep.sample(json!({"workload": "retain-reading-cache", "case": case, "identities": ids.len(), "ops_total": trace.len(),
+            "first_ops": trace.iter().take(10).collect::<Vec<_>>(), "readings_retained_at_end": model.len()}));
     }
     rep.count("histories_reading_cache", 1);
 }
